@@ -38,6 +38,10 @@ def props_of(c):
     for l in c.loops.values():
         for cl in l.invariant:
             ps.update(cl.props)
+    if 'C06' in ps:
+        # C17 (no datagram can stop or wedge the daemon) rests on every parser being total and terminating: the C06
+        # obligations are part of the C17 check as well
+        ps.add('C17')
     return ps
 
 
@@ -123,15 +127,24 @@ def worker(task):
         entry_env = fv.ex.entry.env if fv.ex.entry else {}
         retries = 0        # extended retries are expensive: at most three per function
         unknowns = 0
+        failed = 0
         only = os.environ.get('PYVC_ONLY')        # debugging aid for --func runs: discharge matching obligations only
         if only:
             obs = [ob for ob in obs if all(part in (ob.name + ' ' + str(ob.trail)) for part in only.split('&&'))]
         for ob in obs:
             # once several obligations of a function are undecided (typical for a changed function whose
             # proof no longer goes through) the remaining ones get a single solver attempt each
-            r = discharge(ob, timeout_ms, single=unknowns >= 4)
+            if failed >= 25:
+                # the function has already failed 25 obligations: the verdict cannot change any more, the rest is
+                # not attempted (keeps a run on a changed tree within minutes instead of hours)
+                from .verify import Result
+                r = Result(ob, 'unknown', 0.0, 'none', reason='not attempted: 25 obligations of this function failed already')
+            else:
+                r = discharge(ob, timeout_ms if unknowns < 4 else min(timeout_ms, 5000), single=unknowns >= 4)
             if r.status == 'unknown':
                 unknowns += 1
+            if r.status != 'discharged':
+                failed += 1
             if os.environ.get('PYVC_PROGRESS'):
                 print(f'  .. {r.status:10s} {r.time_s:7.1f}s {ob.name} {[t for t in ob.trail][-3:]}', file=sys.stderr, flush=True)
             if r.status == 'unknown' and ob.name in _BASELINE_NAMES and retries < 3:
